@@ -1435,7 +1435,19 @@ def write_only_lists(loop: ast.For, env: dict[str, Any]) -> set[str]:
     return out
 
 
+_GEN_CACHE: dict[int, tuple[ast.AST, bool]] = {}
+
+
 def _is_generator(node: ast.AST) -> bool:
+    hit = _GEN_CACHE.get(id(node))
+    if hit is not None and hit[0] is node:
+        return hit[1]
+    r = _is_generator_uncached(node)
+    _GEN_CACHE[id(node)] = (node, r)
+    return r
+
+
+def _is_generator_uncached(node: ast.AST) -> bool:
     stack = list(ast.iter_child_nodes(node))
     while stack:
         x = stack.pop()
